@@ -1,5 +1,7 @@
 #![allow(dead_code, unused_variables, unused_imports, clippy::all)]
 mod bcverify;
+mod c01;
+mod typemember;
 mod c02;
 mod refeval;
 mod runsync;
@@ -11,6 +13,11 @@ mod qcompile;
 mod render;
 mod sim;
 // REGISTRY (modules): one `mod cNN;` line per Engine-B/C check
+mod c19;
+mod c16;
+mod c20;
+mod c18;
+mod c12;
 mod c11;
 
 use infra::Tier;
@@ -31,7 +38,13 @@ fn run_check(id: &str, tier: Tier) -> Result<infra::Report, String> {
         "C14" => sim::checks::c14(tier),
         "C07" => c07::run(tier),
         "C02" => c02::run(tier),
+        "C01" => c01::run(tier),
         "C11" => c11::run(tier),
+        "C12" => c12::run(tier),
+        "C18" => c18::run(tier),
+        "C20" => c20::run(tier),
+        "C16" => c16::run(tier),
+        "C19" => c19::run(tier),
         // REGISTRY (run): "CNN" => cNN::run(tier),
         _ => Err(format!("no check registered for {}", id)),
     }
@@ -50,7 +63,13 @@ fn run_replay(id: &str, path: &std::path::Path) -> i32 {
         _ => match id {
             "C07" => c07::replay(replay),
             "C02" => c02::replay(replay),
+            "C01" => c01::replay(replay),
             "C11" => c11::replay(replay),
+            "C12" => c12::replay(replay),
+            "C18" => c18::replay(replay),
+            "C20" => c20::replay(replay),
+            "C16" => c16::replay(replay),
+            "C19" => c19::replay(replay),
             // REGISTRY (replay): "CNN" => cNN::replay(replay),
             _ => Err(format!("no replay handler for {}", id)),
         },
@@ -77,6 +96,8 @@ fn main() {
         usage();
     }
     sim::system::install_panic_recorder();
+    // the repository's own worker threads get 256 MiB stacks (value traversals recurse)
+    let _ = rayon::ThreadPoolBuilder::new().stack_size(256 << 20).build_global();
     let started = Instant::now();
     match args[1].as_str() {
         "probe" => {
@@ -95,6 +116,21 @@ fn main() {
                     c02::Verdict::Rejected => println!("  rejected"),
                     c02::Verdict::Abstain(w) => println!("  abstain {}", w),
                     _ => println!("  other"),
+                }
+            }
+        }
+        "judge01" => {
+            for src in &args[2..] {
+                let src = src.replace("\\n", "\n");
+                match c01::judge(&src) {
+                    c01::Verdict::Unsound { kind, detail } => {
+                        let core = c01::shrink(&src, kind);
+                        println!("UNSOUND {}: {}\n  core: {}\n  class: {:?}", kind, detail, core, c01::construct_class(&core));
+                    }
+                    c01::Verdict::Rejected => println!("rejected"),
+                    c01::Verdict::Value { member, ty, value } => println!("value {} : {} ({:?})", value, ty, member),
+                    c01::Verdict::DomainError(e) => println!("domain error {}", e),
+                    _ => println!("other"),
                 }
             }
         }
